@@ -1,13 +1,14 @@
 import PwVerif.Model.FuncWrap
 import PwVerif.Model.PyAst
 import PwVerif.Model.Kinds
+import PwVerif.Model.DcMro
 import PwVerif.Model.Proto
-open PwVerif PwVerif.FuncWrap PwVerif.PyAst PwVerif.Kinds PwVerif.Proto
+open PwVerif PwVerif.FuncWrap PwVerif.PyAst PwVerif.Kinds PwVerif.DcMro PwVerif.Proto
 
 /-! Line-protocol driver for the FuncWrap model (C17).
 
     cfg <recast 0|1> <cachedPanel 0|1> <dictByHash 0|1> <dcByName 0|1> <walkNested 0|1> <byteCols 0|1>
-        <variadicByName 0|1> <posOnlyByKeyword 0|1>
+        <variadicByName 0|1> <posOnlyByKeyword 0|1> <rawDataclassFields 0|1>
     srcline <code points of one line of the dedented source, comma separated | ->     (appends a source line)
     stmt <depth> leaf | inner0 | inner1 | retbare | retother <l0> <c0> <l1> <c1> | rettuple (<l0> <c0> <l1> <c1>)*
                                  (the statement tree of the function body as python's `ast` gives it, in pre-order;
@@ -27,7 +28,9 @@ open PwVerif PwVerif.FuncWrap PwVerif.PyAst PwVerif.Kinds PwVerif.Proto
     retann - | None | <hint> <get_args hint>*
     show                         (class-level preview of the `fn` definition, or its refusal)
     def list <n> | def df <n> | def unpack <n> | def dict <name>:<hint|->=<default|->* |
-    def dc <already 0|1> <name>:<n|v|f>:<val>:<hint>*
+    def dc <already 0|1> <name>:<n|v|f>:<val>:<hint>[:cv|iv|i0]*     (cv = ClassVar, iv = InitVar, i0 = field(init=False))
+    dcbase <decorated 0|1> <field>*          (appends an ancestor class, base-most first, for the next `def dc`; with
+                                 ancestors or member options the field table is computed along the MRO)
     inst <npos> <val>^npos <key>=<val>*
     io                           (labels, hints, defaults and values of the instance's channels)
     call <npos> <val>^npos <key>=<val>*
@@ -130,6 +133,7 @@ inductive Kind where
   | xf (k : XfKind)
   | unpack
   | dc
+  | dcm (tbl inputs : List DField)
 
 abbrev Preview := List InPrev × List (String × Hint)
 
@@ -163,7 +167,29 @@ def spansOf : List Nat → Option (List Span)
   | a :: b :: c :: d :: r => (spansOf r).map (⟨a, b, c, d⟩ :: ·)
   | _ => none
 
+def parseDField (w : String) : Option DField :=
+  match w.splitOn ":" with
+  | name :: k :: v :: h :: opts =>
+    let dflt : Option Dflt :=
+      if k == "n" then some .none
+      else if k == "v" then (parseValS v).map Dflt.value
+      else if k == "f" then (parseValS v).map Dflt.factory
+      else none
+    let ko : Option (FKind × Bool) :=
+      match opts with
+      | [] => some (.field, true)
+      | ["cv"] => some (.classVar, true)
+      | ["iv"] => some (.initVar, true)
+      | ["i0"] => some (.field, false)
+      | _ => none
+    match dflt, ko with
+    | some d, some (kd, ini) => some { name := name, dflt := d, kind := kd, init := ini, hint := (if h == "-" then none else some h) }
+    | _, _ => none
+  | _ => none
+
 structure St where
+  chain : List DClass := []
+  rawDc : Bool := true
   src : List (List Char) := []
   stmts : List (Nat × STok) := []
   kinds : List PKind := []
@@ -271,8 +297,8 @@ def step (s : St) (ws : List String) : St × List String :=
   | "cfg" :: flags =>
     let bit (w : String) : Option Bool := if w == "1" then some true else if w == "0" then some false else none
     match flags.mapM bit with
-    | some [a, b, c, d, e, f, g, h] =>
-      ({ s with cfg := ⟨a, b, c, d⟩, scfg := ⟨e, f⟩, kcfg := ⟨g, h⟩ }, [])
+    | some [a, b, c, d, e, f, g, h, i] =>
+      ({ s with cfg := ⟨a, b, c, d⟩, scfg := ⟨e, f⟩, kcfg := ⟨g, h⟩, rawDc := i }, [])
     | _ => (s, ["bad-op"])
   | ["srcline", cps] =>
     match s.kind with
@@ -393,7 +419,23 @@ def step (s : St) (ws : List String) : St × List String :=
     match spec.mapM parseSpec with
     | some sp => defXf s (.xf .toDict) (dictPreview sp)
     | none => (s, ["bad-op"])
+  | "dcbase" :: deco :: fields =>
+    match (if deco == "1" then some true else if deco == "0" then some false else none), fields.mapM parseDField with
+    | some d, some fs => ({ s with chain := s.chain ++ [⟨d, fs⟩] }, [])
+    | _, _ => (s, ["bad-op"])
   | "def" :: "dc" :: already :: fields =>
+    if !s.chain.isEmpty || fields.any (fun w => (w.splitOn ":").length > 4) then
+      -- a class hierarchy / members with options: the field table along the MRO
+      match (if already == "1" then some true else if already == "0" then some false else none),
+            fields.mapM parseDField with
+      | some al, some fs =>
+        let tbl := nodeTable false s.chain ⟨al, fs⟩
+        let ins := inputFields s.rawDc tbl
+        let pv : Preview := (dcInPreview (ins.map (·.toField)) (ins.map (·.hint)), [("dataclass", some "*")])
+        let s := { s with chain := [] }
+        defMade s s.cfg.dcByName ⟨.dcm tbl ins, pv, dcNode (ins.map (·.toField))⟩
+      | _, _ => ({ s with chain := [] }, ["bad-op"])
+    else
     match (if already == "1" then some true else if already == "0" then some false else none),
           fields.mapM parseField with
     | some al, some fhs =>
@@ -425,6 +467,7 @@ def step (s : St) (ws : List String) : St × List String :=
         | .xf kd => xfCall kd n a k
         | .unpack => unpackCall n a k
         | .dc => dcCall n a k
+        | .dcm tbl ins => dcCallM tbl ins n a k
         | .none => (n, .valueError)
       let ok := match r.2 with | .ret _ => true | _ => false
       ({ s with node := some r.1, ranOk := ok }, [showOutcome r.1 r.2])
